@@ -746,15 +746,31 @@ func ReplayMain(path string) int {
 		fmt.Printf("replay %s: FAILS\n%s\n", path, fail.Msg)
 		return 1
 	}
-	fail := Guard(func() *Failure { return chk.Replay(rf.Desc) })
-	if fail == nil && len(rf.History) > 0 {
-		// passes alone: replay it as the last step of the short history it was found in
+	var fail *Failure
+	if os.Getenv("VERIF_REPLAY_HISTORY") == "1" {
+		// history mode (fresh process): the cases executed before it in the worker, then the case
 		for _, h := range rf.History {
 			h := h
 			_ = Guard(func() *Failure { return chk.Replay(h) })
 		}
 		if fail = Guard(func() *Failure { return chk.Replay(rf.Desc) }); fail != nil {
 			fail.Msg = fmt.Sprintf("(passes when run alone, fails after the %d cases executed before it in the same process: state leaks between calls)\n", len(rf.History)) + fail.Msg
+		}
+	} else {
+		fail = Guard(func() *Failure { return chk.Replay(rf.Desc) })
+		if fail == nil && len(rf.History) > 0 {
+			// passes alone: replay it as the last step of the short history it was found in, in a
+			// fresh process (running it alone first may already have changed the leaking state)
+			if self, err := os.Executable(); err == nil {
+				cmd := exec.Command(self, "replay", path)
+				cmd.Env = append(os.Environ(), "VERIF_REPLAY_HISTORY=1")
+				out, err := cmd.CombinedOutput()
+				fmt.Print(string(out))
+				if ee, ok := err.(*exec.ExitError); ok {
+					return ee.ExitCode()
+				}
+				return 0
+			}
 		}
 	}
 	if fail == nil {
